@@ -1,9 +1,16 @@
 #!/usr/bin/env python3
-"""Regenerates /verif/MANIFEST.json from engines.json + props_meta.json (run after adding an engine)."""
-import json, os
+"""Regenerates /verif/MANIFEST.json from engines.json + engines.d/*.json + props_meta.json + props_meta.d/*.json."""
+import json, os, glob
 ROOT = os.path.dirname(os.path.dirname(os.path.abspath(__file__)))
 eng = json.load(open(os.path.join(ROOT, "engines.json")))
+for f in sorted(glob.glob(os.path.join(ROOT, "engines.d", "*.json"))):
+    d = json.load(open(f))
+    eng["engines"].update(d.get("engines", {}))
+    eng["levels"].update(d.get("levels", {}))
 meta = json.load(open(os.path.join(ROOT, "props_meta.json")))
+for f in sorted(glob.glob(os.path.join(ROOT, "props_meta.d", "*.json"))):
+    d = json.load(open(f))
+    meta["claimed"].update(d.get("claimed", {}))
 props = [json.loads(l) for l in open(os.path.join(ROOT, "properties.jsonl"))]
 ids = [p["id"] for p in props]
 claimed = {}
@@ -30,6 +37,13 @@ for pid in ids:
 na = [{"property_id": pid, "reason": meta["not_applicable"][pid]} for pid in ids if pid not in claimed]
 missing = [pid for pid in ids if pid not in claimed and pid not in meta["not_applicable"]]
 assert not missing, missing
+hooks = []
+try:
+    import subprocess
+    out = subprocess.run(["git", "-C", "/repo", "log", "--format=%H %s"], capture_output=True, text=True).stdout
+    hooks = [l.split()[0] for l in out.splitlines() if "verif hook" in l]
+except Exception:
+    pass
 man = {
     "version": 1,
     "setup_cmd": "./setup.sh",
@@ -37,7 +51,7 @@ man = {
         "guard": "verif (Go build tag)",
         "enable": "checks build /repo's working tree with `go1.26.8 test -c -tags verif -overlay=<harness files> -modfile=<go.mod + porcupine>`; nothing under /repo is written",
         "baseline_off_cmd": meta["baseline_off_cmd"],
-        "source_commits": meta.get("hook_commits", []),
+        "source_commits": hooks,
         "add_only": True,
     },
     "engines": [{"name": n, "path": e["src"], "serves_properties": e["props"], "kind_free_text": e.get("kind", "")} for n, e in eng["engines"].items()],
@@ -46,4 +60,4 @@ man = {
     "notes": meta.get("notes", ""),
 }
 json.dump(man, open(os.path.join(ROOT, "MANIFEST.json"), "w"), indent=1)
-print(f"MANIFEST.json: {len(checks)} checks, {len(na)} not applicable")
+print(f"MANIFEST.json: {len(checks)} checks, {len(na)} not applicable, {len(hooks)} hook commits")
